@@ -68,7 +68,7 @@ theorem evalFn_refines (env : Nat → Fn α ρ) (agg : List (Ret α × Nat) → 
         (specEval env agg lowest fuel) (env fn)
         (fun cc => ⟨some ((lim.orElse fun _ => (c.getD ⟨none, 0, 1, 1⟩).limit).getD (.int 1)),
           (c.getD ⟨none, 0, 1, 1⟩).depth + 1, (c.getD ⟨none, 0, 1, 1⟩).precNum * cc,
-          (c.getD ⟨none, 0, 1, 1⟩).precDen * (srcs.map (·.total)).foldl (· * ·) 1⟩)
+          (c.getD ⟨none, 0, 1, 1⟩).precDen * srcTotal srcs⟩)
         (fun cc fn' srcs' lim' => by rw [ih]; rfl)
         c (branches srcs) (pure []) (.ok []) rfl
       rw [hfold]
